@@ -23,15 +23,19 @@ LAZY_FNS = [
     "fastrace::local::local_span::LocalSpan::add_property", "fastrace::local::local_span::LocalSpan::add_properties",
 ]
 REC_TY = r"Option<(&(mut )?)?fastrace::(span::SpanInner|local::local_span::LocalSpanInner|local::local_span_line::SpanLine)>"
+# a LocalSpan keeps its handle (inner = Some) after the scope it was started in has been released: for its own methods
+# "recording" is a question to the thread's stack, not to the handle
+REC_TY_LOCAL = r"Option<(&(mut )?)?fastrace::(span::SpanInner|local::local_span_line::SpanLine)>"
 
 
 def recording_edges(fn, prov):
     """Edges a call must cross for the operation to be 'recording' in fn."""
-    e = set(discr_cond_edges(fn, prov, REC_TY, ["Some"]))
+    local = "::local_span::LocalSpan::" in fn.path
+    e = set(discr_cond_edges(fn, prov, REC_TY_LOCAL if local else REC_TY, ["Some"]))
     e |= bool_cond_edges(fn, prov, lambda o: o.path and o.path[-1] == ".is_sampled", True)
     # is_some()/is_none() forms of the same tests
     e |= bool_cond_edges(fn, prov, lambda o: any(v[0] == "call" and re.search(r"Option::<T>::is_some$", v[1]) for v in o.via)
-                         and o.path and o.path[-1] in (".inner",), True)
+                         and o.path and o.path[-1] in (".inner",), True) if not local else set()
     return e
 
 
@@ -128,7 +132,7 @@ def check(ctx):
         "function invokes a caller-supplied closure (invokes fixpoint empty); R2 from_span/current_local_parent/elapsed "
         "assign only None to their return place and to_span_records returns Vec::new(). Config E: R3 for the eight "
         "property-taking methods of Span/LocalSpan no invocation of the closure parameter is reachable without crossing "
-        "a recording check (Option<SpanInner|LocalSpanInner|&mut SpanLine> = Some, SpanLine.is_sampled = true, matched "
+        "a recording check (Option<SpanInner|LocalSpanInner|&mut SpanLine> = Some, SpanLine.is_sampled = true -- for LocalSpan's own methods only the stack's answer counts, the handle outlives its scope --, matched "
         "on value origins so helper predicates count); R4 Span::root returns noop before a reporter is ready, "
         "enter_with_parent on a no-op parent, every Span::new call receives a token that cannot be empty, REPORTER_READY is "
         "stored true only after GlobalCollector::start and read un-negated; R5 'no local parent' is a state the stack really returns "
